@@ -493,4 +493,24 @@ example : exDaoHeap.WF ∧ NoO2M dirToday exDaoHeap ∧ NoDup exDaoHeap := by
     exact this n hn _ (List.mem_of_getElem? hk) ts rfl
 
 
+/-! ## Joined-inheritance chains with unmapped intermediate classes (test) -/
+
+/-- a mapped root whose mapped descendants are reached through classes that are not mapped: three tables in the
+chain, the discriminator restores the class through every one of them (test) -/
+def chainHeap : Heap := [
+  { lab := ⟨"AuxWorkbench", "label=sw"⟩, kind := .plain, view := noView, tabs := ["AuxWorkbenchDAO"],
+    fields := [⟨false, "d"⟩, ⟨false, ""⟩], refs := [.many [1, 2], .one 2] },
+  { lab := ⟨"AuxDevice", "name=sa"⟩, kind := .plain, view := noView, tabs := ["AuxDeviceDAO"], fields := [], refs := [] },
+  { lab := ⟨"AuxTurboScanner", "name=sb"⟩, kind := .plain, view := noView,
+    tabs := ["AuxTurboScannerDAO", "AuxScannerDAO", "AuxDeviceDAO"], fields := [], refs := [] }]
+
+example :
+    load dirToday true (flush dirToday [] chainHeap) = chainHeap ∧
+    loadRoot (flush dirToday [] chainHeap) "AuxDeviceDAO" (rowId 2) = some 2 ∧
+    loadRoot (flush dirToday [] chainHeap) "AuxScannerDAO" (rowId 2) = some 2 ∧
+    loadRoot (flush dirToday [] chainHeap) "AuxTurboScannerDAO" (rowId 2) = some 2 ∧
+    loadRoot (flush dirToday [] chainHeap) "AuxScannerDAO" (rowId 1) = none ∧
+    ((load dirToday true (flush dirToday [] chainHeap))[2]?).map (·.lab.cls) = some "AuxTurboScanner" := by decide
+
+
 end KrroodVerif.Dao
